@@ -226,7 +226,7 @@ func checkC09(c *Check) {
 	for _, f := range t.Of("flush") {
 		late := false
 		for _, b := range t.Of("bind") {
-			if b.EP == f.EP && b.Fn == f.Fn && sameOrg(b.U, f.U) && dominatesInstr(b.Ins, f.Ins) {
+			if sameOrg(b.U, f.U) && t.Before(b, f) {
 				late = true
 			}
 		}
